@@ -40,3 +40,9 @@ claim("C14", "property-based testing (Hypothesis); closed-form numpy oracle (lin
 claim("C15", "differential property-based testing (Hypothesis): specialised class vs general class on generated operations",
       "Rank-one/linear/constant factors vs ConjugateFactor (multiply/hadamard x update_full x cold/warm measures, log-factor integral, slice, product), diagonal measures/densities vs full ones (17 operations), diag / identity / identity-diag / NN-control conditionals vs ConditionalGaussianPDF built from the same parameters (12 operations, all batch combos): every public attribute present on both sides and evaluate_ln must agree; one-sided exceptions are violations.",
       _NOTE, "DESIGN.md §2 C15")
+claim("C04", "model-based property-based testing over generated operation histories (Hypothesis op-list strategy), invariant + cold-clone differential",
+      "Histories of <=5 (quick) / <=8 (thorough) steps over a pool of measures, densities and conditionals (products via fast paths or inversion, slice, update, normalize, marginals, conditioning, exact and moment-matched transformations, heteroscedastic cond(x)) interleaved with cache-warming queries: after every step every cached Sigma / log-det / mu / lnZ of every pooled object is compared with numpy's value from its own (Lambda, nu), and every producing step is re-run on cold clones to show results do not depend on prior queries.",
+      _NOTE, "DESIGN.md §2 C04")
+claim("C12", "metamorphic property-based testing (Hypothesis): slicing commutes with generated operations",
+      "op(objects).slice(idx') is compared with op(sliced objects) for measures/densities (12+6 operations incl. integrals with per-component coefficients), products (multiply/hadamard with both batches, layout i*R2+j), all conditional classes incl. NN-control (10 operations, batch on the conditional or on p(x), layout r*N+n) with idx arrays containing repetitions, negatives, permutations and singletons; update(idx,d) against numpy assignment.",
+      _NOTE, "DESIGN.md §2 C12")
